@@ -31,6 +31,7 @@ type genCfg struct {
 	minRequired int
 	endpoints   bool
 	recursive   bool // every object refers to itself
+	inline      bool // OpenAPI 2: properties may be inline objects (outside the Coq import model)
 	maxOdd      int  // > 0: at most that many hostile / keyword names in the whole document
 }
 
@@ -113,7 +114,7 @@ func (g *gen) ptype(refs []string, depth int, owner string) ptype {
 		t = ptype{Kind: "prim", Prim: g.primFor()}
 	case k < 8:
 		t = ptype{Kind: "ref", Ref: refs[g.r.Intn(len(refs))]}
-	case oas && depth < 2 && g.cfg.format == "swagger":
+	case oas && depth < 2 && g.cfg.format == "swagger" && g.cfg.inline:
 		o := g.object("", refs, depth+1)
 		t = ptype{Kind: "obj", Obj: &o}
 	default:
@@ -407,7 +408,8 @@ func docsStream(c *common.Ctx) {
 		thor  int
 	}
 	plans := []plan{
-		{genCfg{format: "swagger", stream: "oas2-valid", endpoints: true}, 40, 400},
+		{genCfg{format: "swagger", stream: "oas2-valid", endpoints: true}, 35, 400},
+		{genCfg{format: "swagger", stream: "oas2-inline-objects", endpoints: true, inline: true, hostileProp: 1}, 15, 200},
 		{genCfg{format: "swagger", stream: "oas2-required3", minRequired: 3}, 20, 200},
 		{genCfg{format: "swagger", stream: "oas2-hostile-names", hostileProp: 5, hostileType: 3}, 40, 400},
 		{genCfg{format: "swagger", stream: "oas2-keywords", keywordProp: 5}, 20, 200},
@@ -459,7 +461,33 @@ func docsStream(c *common.Ctx) {
 			}
 		}(l)
 	}
+	oc := c.NewCases("C11oas", `From Coq Require Import String List NArith Bool. Import ListNotations.
+Require Import Verif.Foreign.NameEscape Verif.Foreign.ImportSpec Verif.Foreign.ImportRun Verif.Base.Harness.
+Local Open Scope string_scope. Local Open Scope N_scope.`, "oas_case",
+		`Definition M := Eval vm_compute in mismatches oas_ok cases. Print M.`, 40)
+	defer oc.Close()
+	xc := c.NewCases("C11xsd", `From Coq Require Import String List NArith Bool. Import ListNotations.
+Require Import Verif.Foreign.NameEscape Verif.Foreign.ImportSpec Verif.Foreign.XsdSpec Verif.Foreign.ImportRun Verif.Base.Harness.
+Local Open Scope string_scope. Local Open Scope N_scope.`, "xsd_case",
+		`Definition M := Eval vm_compute in mismatches xsd_ok cases. Print M.`, 40)
+	defer xc.Close()
 	finish := func(d doc, o docObs) {
+		if d.Format == "xsd" && o.Proj != nil {
+			if g, ok := gProj(o.Proj); ok {
+				xc.Add(fmt.Sprintf("(%s, %s)", gXsdDoc(d), g), d)
+				c.Hist("doc-model:xsd-compared-in-coq")
+			}
+		}
+		if d.Format == "swagger" && o.Proj != nil {
+			if !flatOAS(d) {
+				c.Hist("doc-model:outside-subset(inline-object)")
+			} else if orderDependentArray(d) {
+				c.Hist("doc-model:not-compared(output depends on Go's map order)")
+			} else if g, ok := gProj(o.Proj); ok {
+				oc.Add(fmt.Sprintf("(%s, %s)", gOasDoc(d), g), d)
+				c.Hist("doc-model:compared-in-coq")
+			}
+		}
 		nprops := 0
 		for _, s := range d.Schemas {
 			nprops += len(s.Props)
